@@ -1,3 +1,40 @@
 """Configuration of ./check for property C13 (loaded by tools/props.py)."""
 
-PROP = {'engine': 'srv', 'lean_props': ['MuscleModel.Props.C01'], 'harnesses': [{'name': 'srv', 'sources': ['harness/srv.cpp']}]}
+PROP = {'engine': 'srv',
+ 'lean_props': ['MuscleModel.Props.C13'],
+ 'harnesses': [{'name': 'srv', 'sources': ['harness/srv.cpp']}],
+ 'trusted_base': ['hand-written Lean model of the reflector: node tree, path matcher, literal wildcard traversal, notification pipeline, command handlers '
+                  '(lean/MuscleModel/Reflector/{Glob,Tree,Traverse,Server,Handlers}.lean, Engines/Srv.lean)',
+                  'tie: harness/srv.cpp drives a real in-process ReflectServer (one ServerProcessLoop iteration at a time, real MessageIOGateways over socket '
+                  "pairs); tree digest, per-node subscriber tables and every Message each client receives must equal the model's prediction line by line",
+                  'clause patterns in the reflector model are the fragment {literal, \\\\c, *, ?, top-level comma}; the full pattern syntax is property C15; '
+                  'glibc regcomp/regexec trusted as there',
+                  'content filters in the reflector engine are int32 comparisons on one field; the full filter language is property C14',
+                  'IdxOp/`notifyIndex` is the observation point of the per-subscriber log in the theorems; in-order delivery of the queued instructions to '
+                  'each subscriber is covered by the correspondence run and the replay oracle, not by a theorem'],
+ 'assumptions': ['subscribers that restrict the indexed parent with a content filter, or that received hostile/quiet traffic, are outside the replay oracle '
+                 '(the server suppresses index notifications for them by design)'],
+ 'rule': 'generated histories over 2-5 sessions on two hosts: attach/detach, SETDATA (incl. ADDTOINDEX), REMOVEDATA with wildcards, SUBSCRIBE with/without '
+         'int32 filters, re-filter, unsubscribe, reflect-to-self, max-items, default route, client-to-client Messages with 0-2 key patterns, '
+         'INSERTORDEREDDATA, REORDERDATA, BATCH, PING, FindMatchingNodes; every 4th case is the hostile stream (arbitrary structurally valid Messages with '
+         'reserved names and wrong types, quiet flags, GETDATA, JETTISONRESULTS with filters while a client is not reading, connection cuts after a byte '
+         'prefix) followed by a witness ping after every op; direct oracles evaluated on the real server at every quiescent point; distinct = distinct case '
+         'bodies',
+ 'timeout': 600}
+
+TEXT = {'design_ref': 'DESIGN.md section 4, C13',
+ 'technique': 'Lean 4 theorems (log replay = server index for every handler and every history of index operations; snapshot + log; invariant "index lists '
+              'existing children, each once" over every reachable server state) + differential correspondence with a real server + per-client index replay '
+              'oracle',
+ 'text': 'Proved in Lean: the instruction text parses back (`parse_render`); for every one of InsertOrderedChild (all `before` cases incl. the unindexed '
+         '"!Rmv" form), ReorderChild, RemoveIndexEntry, RemoveChild (recursive) and SetDataNode±ADDTOINDEX the instructions handed to the subscribers, '
+         'replayed on the old index, give the new index (`log_replay_*`, `log_replay` for any sequence, `snapshot_then_log_replay` for a client that joins '
+         'with a snapshot), every position is in range (`positions_in_range*`), a removed child leaves the index (`remove_drops_entry`), generated names are '
+         'fresh (`generated_name_fresh`); the invariant "every index is duplicate-free and lists only existing children, sibling names distinct" holds in '
+         'every state reachable from the empty server by attach, detach, any command of the reflector engine, pushes and pumps (`index_sound_reach`, '
+         '`index_sound_engine`, `index_sound`).  Tie: the model reproduces the real server line by line; the harness keeps, per client and per indexed node, '
+         "the index obtained by replaying every PR_RESULT_INDEXUPDATED Message and compares it with the server's DataNode index at every quiescent point, and "
+         'checks the invariant on the real tree.',
+ 'note': 'Subtree clone/restore (CloneDataNodeSubtree, RestoreNodeTreeFromMessage) is not reachable from the client protocol of the stock server and is not '
+         'modelled.  The theorems observe the log where NodeIndexChanged is called; queueing per subscriber and flushing in order is covered by correspondence '
+         'only.'}
